@@ -5,6 +5,7 @@ import (
 	"fmt"
 	"os"
 	"runtime"
+	"runtime/pprof"
 	"sort"
 	"strconv"
 	"strings"
@@ -98,10 +99,12 @@ func runCheck(opt *Options) int {
 			defer func() { <-sem }()
 			defer func() {
 				if r := recover(); r != nil {
-					buf := make([]byte, 4096)
-					n := runtime.Stack(buf, false)
+					msg := fmt.Sprintf("%v", r)
+					if ec, ok := r.(engineCrash); ok {
+						msg = ec.msg
+					}
 					res := &ObResult{Ob: ob, KnownHits: map[string]*Violation{}, Reached: map[string]bool{}}
-					res.Unsupported = append(res.Unsupported, fmt.Sprintf("engine crash: %v\n%s", r, buf[:n]))
+					res.Unsupported = append(res.Unsupported, "engine crash: "+msg)
 					results[i] = res
 				}
 			}()
@@ -129,7 +132,7 @@ func report(opt *Options, w *World, results []*ObResult, t0 time.Time) int {
 		}
 		fmt.Printf("  %-40s %-22s paths=%d asserts=%d discharged=%d queries=%d solver=%.1fs wall=%.1fs\n", r.Ob.ID(), status, r.Paths, r.Asserts, r.Discharged, r.Stats.Queries, r.Stats.Time.Seconds(), r.Wall.Seconds())
 		for _, u := range r.Unsupported {
-			fmt.Printf("      not-encodable: %s\n", trunc(u, 600))
+			fmt.Printf("      not-encodable: %s\n", trunc(u, 3000))
 		}
 		for _, u := range r.Inconclusive {
 			fmt.Printf("      inconclusive: %s\n", trunc(u, 300))
@@ -280,4 +283,16 @@ func harnessOfLabelRan(hf *HarnessFile, lab string, results []*ObResult) bool {
 		}
 	}
 	return false
+}
+
+func init() {
+	if p := os.Getenv("VERIF_PPROF"); p != "" {
+		f, _ := os.Create(p)
+		pprof.StartCPUProfile(f)
+		go func() {
+			time.Sleep(60 * time.Second)
+			pprof.StopCPUProfile()
+			f.Close()
+		}()
+	}
 }
